@@ -2317,3 +2317,152 @@ impl World {
         XHopOut { line, viols, tags }
     }
 }
+
+// ================================================================================================
+// C18: opening a position through the entrypoint
+//   H xopen <kind 1|2|3> <lower> <upper> <ownerIsFunder 0|1>
+// kind 1 = open_position (SPL Token mint, Anchor `init` of position / mint / associated token account);
+// kind 2 = open_position_with_token_extensions without metadata; kind 3 = the same with token metadata.
+// The position mint is a fresh signer; the owner's token account is the associated address (created by the
+// harness' associated-token program through the REAL token program).  lower / upper may be the sentinels
+// i32::MIN / i32::MAX ("derive this bound from the price").
+// Expected: exactly one position token, no mint authority left, range = the resolved and validated range.
+// ================================================================================================
+impl World {
+    pub fn x_open(&self, t: &[&str]) -> XHopOut {
+        use anchor_lang::ToAccountMetas;
+        let mut viols = vec![];
+        let mut tags: Vec<&'static str> = vec![];
+        let kind: u8 = t[2].parse().unwrap();
+        let (lo, hi): (i64, i64) = (t[3].parse().unwrap(), t[4].parse().unwrap());
+        let owner_is_funder = t[5] == "1";
+        let base = crate::hist_oracle::clone_world(self);
+        let mut fx = Fx::from_world(&base, None, None, false, false, 1_000);
+        let t22 = anchor_spl::token_2022::ID;
+        let tokp = if kind == 1 { anchor_spl::token::ID } else { t22 };
+        let pmint = k(0x65, kind);
+        let (position, bump) = Pubkey::find_program_address(&[b"position", pmint.as_ref()], &::whirlpool::ID);
+        let owner = if owner_is_funder { fx.trader } else { k(0x63, 11) };
+        let ata = Pubkey::find_program_address(&[owner.as_ref(), tokp.as_ref(), pmint.as_ref()], &anchor_spl::associated_token::ID).0;
+        let sysid = crate::svm::system_id();
+        fx.bank.set(owner, sysid, 1_000_000_000, vec![]);
+        fx.bank.set(fx.trader, sysid, 10_000_000_000, vec![]);
+        fx.bank.set_program(sysid);
+        fx.bank.set_program(anchor_spl::associated_token::ID);
+        // Rent sysvar account (bincode: lamports_per_byte_year u64, exemption_threshold f64, burn_percent u8)
+        let rent_id = anchor_lang::solana_program::sysvar::rent::ID;
+        {
+            let r = anchor_lang::solana_program::rent::Rent::default();
+            let mut d = vec![];
+            d.extend_from_slice(&r.lamports_per_byte_year.to_le_bytes());
+            d.extend_from_slice(&r.exemption_threshold.to_le_bytes());
+            d.push(r.burn_percent);
+            fx.bank.set(rent_id, anchor_lang::solana_program::sysvar::ID, 1_009_200, d);
+        }
+        let upd_auth = ::whirlpool::constants::nft::whirlpool_nft_update_auth::ID;
+        fx.bank.set(upd_auth, sysid, 1_000_000, vec![]);
+        let bank0 = fx.bank.clone();
+        let in_i32 = |x: i64| x.clamp(i32::MIN as i64, i32::MAX as i64) as i32;
+        let (metas, data): (Vec<Meta>, Vec<u8>) = if kind == 1 {
+            let acc = ::whirlpool::accounts::OpenPosition {
+                funder: fx.trader,
+                owner,
+                position,
+                position_mint: pmint,
+                position_token_account: ata,
+                whirlpool: fx.pool,
+                token_program: anchor_spl::token::ID,
+                system_program: sysid,
+                rent: rent_id,
+                associated_token_program: anchor_spl::associated_token::ID,
+            };
+            (
+                acc.to_account_metas(None).iter().map(Meta::from).collect(),
+                ::whirlpool::instruction::OpenPosition { bumps: ::whirlpool::state::OpenPositionBumps { position_bump: bump }, tick_lower_index: in_i32(lo), tick_upper_index: in_i32(hi) }.data(),
+            )
+        } else {
+            let acc = ::whirlpool::accounts::OpenPositionWithTokenExtensions {
+                funder: fx.trader,
+                owner,
+                position,
+                position_mint: pmint,
+                position_token_account: ata,
+                whirlpool: fx.pool,
+                token_2022_program: t22,
+                system_program: sysid,
+                associated_token_program: anchor_spl::associated_token::ID,
+                metadata_update_auth: upd_auth,
+            };
+            (
+                acc.to_account_metas(None).iter().map(Meta::from).collect(),
+                ::whirlpool::instruction::OpenPositionWithTokenExtensions { tick_lower_index: in_i32(lo), tick_upper_index: in_i32(hi), with_token_metadata_extension: kind == 3 }.data(),
+            )
+        };
+        let (res, out) = fx.bank.execute(&metas, &data);
+        let wp = self.wp();
+        let ts = wp.tick_spacing;
+        let line = match &res {
+            Err(e) => {
+                let name = err_name(e, &out.logs);
+                if std::env::var("WPH_LOGS").is_ok() {
+                    eprintln!("open failed: {:?}\n{}", e, out.logs.join("\n"));
+                }
+                if fx.bank.accts != bank0.accts {
+                    viols.push("a failed open_position changed account state".to_string());
+                }
+                tags.push("open_rejected");
+                format!("err {}", name)
+            }
+            Ok(()) => {
+                let p = Position::try_deserialize(&mut &fx.bank.data(&position)[..]).unwrap();
+                let (rlo, rhi) = (p.tick_lower_index, p.tick_upper_index);
+                if !(rlo < rhi && Tick::check_is_usable_tick(rlo, ts) && Tick::check_is_usable_tick(rhi, ts)) {
+                    viols.push(format!("C18 a position was opened over the invalid range [{}, {}) (spacing {})", rlo, rhi, ts));
+                }
+                if ts >= 32768 && !(rlo == (-443636 / ts as i32) * ts as i32 && rhi == (443636 / ts as i32) * ts as i32) {
+                    viols.push(format!("C18 a partial range [{}, {}) was opened on a full-range-only pool", rlo, rhi));
+                }
+                if lo != i32::MIN as i64 && rlo as i64 != lo || hi != i32::MAX as i64 && rhi as i64 != hi {
+                    viols.push(format!("C18 open_position stored [{}, {}) for the explicit bounds [{}, {})", rlo, rhi, lo, hi));
+                }
+                // a derived bound keeps the position entirely on one side of the current price
+                let price = { wp.sqrt_price };
+                if lo == i32::MIN as i64 && !(::whirlpool::math::sqrt_price_from_tick_index(rlo) >= price) {
+                    viols.push(format!("C18 derived lower bound {} lies below the current price", rlo));
+                }
+                if hi == i32::MAX as i64 && !(::whirlpool::math::sqrt_price_from_tick_index(rhi) <= price) {
+                    viols.push(format!("C18 derived upper bound {} lies above the current price", rhi));
+                }
+                if p.whirlpool != fx.pool || p.position_mint != pmint || p.liquidity != 0 || p.fee_owed_a != 0 || p.fee_owed_b != 0 {
+                    viols.push("C18 the opened position is not an empty position of this pool and mint".to_string());
+                }
+                // exactly one token, held by the owner, no mint authority left
+                let md = fx.bank.data(&pmint);
+                let ma = fx.bank.get(&pmint);
+                if ma.owner != tokp || md.len() < 82 {
+                    viols.push("C18 the position mint is not a mint of the expected token program".to_string());
+                } else {
+                    let mint_auth_tag = u32::from_le_bytes(md[0..4].try_into().unwrap());
+                    let supply = u64::from_le_bytes(md[36..44].try_into().unwrap());
+                    if mint_auth_tag != 0 {
+                        viols.push("C18 the position mint still has a mint authority".to_string());
+                    }
+                    if supply != 1 || md[44] != 0 {
+                        viols.push(format!("C18 the position mint has supply {} / decimals {} (expected 1 / 0)", supply, md[44]));
+                    }
+                }
+                let td = fx.bank.data(&ata);
+                if td.len() < 165 || token_amount(&td) != 1 || td[32..64] != owner.to_bytes() || td[0..32] != pmint.to_bytes() {
+                    viols.push("C18 the owner's associated token account does not hold exactly one position token".to_string());
+                }
+                tags.push(match kind {
+                    1 => "open_ok",
+                    2 => "open_ext_ok",
+                    _ => "open_ext_meta_ok",
+                });
+                format!("ok {} {}", rlo, rhi)
+            }
+        };
+        XHopOut { line, viols, tags }
+    }
+}
